@@ -275,15 +275,16 @@ Lemma own4_sread_safe : safe_proto (Pown4_sread false).       Proof. apply certi
 Lemma own4_fallback_safe : safe_proto (Pown4_fallback 0).     Proof. apply certified. vm_compute. reflexivity. Qed.
 Lemma own4_reuse_reply_safe : safe_proto (Pown4_reuse_reply false). Proof. apply certified. vm_compute. reflexivity. Qed.
 Lemma own4_emptyresp_safe : safe_proto (Pown4_emptyresp false). Proof. apply certified. vm_compute. reflexivity. Qed.
+Lemma own4_prefetch_safe : safe_proto (Pown4_prefetch false).   Proof. apply certified. vm_compute. reflexivity. Qed.
 
 Definition protocols4 : list proto :=
-  [Pown4_sread false; Pown4_fallback 0; Pown4_reuse_reply false; Pown4_emptyresp false].
+  [Pown4_sread false; Pown4_fallback 0; Pown4_reuse_reply false; Pown4_emptyresp false; Pown4_prefetch false].
 
 Lemma protocols4_safe P s : In P protocols4 -> reach P s -> viol s = 0.
 Proof.
   unfold protocols4. cbn. intros H.
   repeat (destruct H as [<-|H]; [first [apply own4_sread_safe|apply own4_fallback_safe|apply own4_reuse_reply_safe
-                                        |apply own4_emptyresp_safe]|]).
+                                        |apply own4_emptyresp_safe|apply own4_prefetch_safe]|]).
   contradiction.
 Qed.
 
@@ -329,10 +330,20 @@ Lemma own4_emptyresp_shared_question_refuted :
             reach (Pown4_emptyresp true) s /\ viol s = 3.
 Proof. apply (own4_witness 8 0). vm_compute. reflexivity. Qed.
 
+(* (10) a prefetch goroutine that copies the handler's question itself reads it after the handler's deferred release
+   (1), or — another request took the recycled Question — reads that request's question (2) *)
+Lemma own4_prefetch_lazy_copy_refuted :
+  (exists s, own_run (Pown4_prefetch true) (own_init (Pown4_prefetch true)) (own4_sched 10 1) = Some s /\
+             reach (Pown4_prefetch true) s /\ viol s = 1) /\
+  (exists s, own_run (Pown4_prefetch true) (own_init (Pown4_prefetch true)) (own4_sched 10 2) = Some s /\
+             reach (Pown4_prefetch true) s /\ viol s = 2).
+Proof. split; [apply (own4_witness 10 1)|apply (own4_witness 10 2)]; vm_compute; reflexivity. Qed.
+
 (* the same named schedules on the code as it is *)
 Lemma own4_current_same_schedules :
   map (own4_verdict 0) [0;1;2;3] = [Some 0; Some 0; Some 0; Some 0] /\
   map (own4_verdict 2) [0;1;2;3;4] = [Some 0; Some 0; Some 0; Some 0; Some 0] /\
   map (own4_verdict 5) [0;1;2] = [Some 0; Some 0; Some 0] /\
-  map (own4_verdict 7) [0;1] = [Some 0; Some 0].
+  map (own4_verdict 7) [0;1] = [Some 0; Some 0] /\
+  map (own4_verdict 9) [0;1;2] = [Some 0; Some 0; Some 0].
 Proof. vm_compute. repeat split. Qed.
